@@ -278,7 +278,19 @@ class Exec(StmtMixin, CallMixin):
         return tuple(self.eval(e, st) for e in n.elts)
 
     def e_List(self, n, st):
-        return SList([self.eval(e, st) for e in n.elts])
+        out = []
+        for e in n.elts:
+            if isinstance(e, ast.Starred):
+                v = self.eval(e.value, st)
+                if isinstance(v, (SList, tuple, list)):
+                    out += list(v.items if isinstance(v, SList) else v)
+                elif type(v).__name__ == "Op":      # orchestration mode: an opaque sequence spliced in
+                    out.append(type(v)("*" + v.text))
+                else:
+                    raise Unsupported("starred %r in a list (line %d)" % (type(v), n.lineno))
+            else:
+                out.append(self.eval(e, st))
+        return SList(out)
 
     def e_Set(self, n, st):
         items = [self.eval(e_, st) for e_ in n.elts]
